@@ -522,6 +522,8 @@ where
         }
 
         let mut escape: Option<Escape> = None;
+        // Whether anything other than separators has been seen for this argument.
+        let mut in_token = false;
         let mut i = 0;
         loop {
             if i == pending.len() {
@@ -542,7 +544,8 @@ where
                             format!("Unterminated quote: {q}"),
                         ));
                     }
-                    if i == 0 {
+                    if !in_token {
+                        // Only separators were left: they do not make an argument.
                         return Ok(None);
                     }
                     pending.clear();
@@ -569,6 +572,9 @@ where
                     }
                 }
                 (None, c) => result.push(c),
+            }
+            if escape.is_some() || !result.is_empty() {
+                in_token = true;
             }
 
             i += 1;
